@@ -1,4 +1,5 @@
 import Ufw.Props.C07
+import Ufw.Tie.Regp
 #print axioms Ufw.Props.C07.verdict_eq_spec
 #print axioms Ufw.Props.C07.accepted_payload_checksum
 #print axioms Ufw.Props.C07.rejected_not_executed
@@ -10,3 +11,8 @@ import Ufw.Props.C07
 #print axioms Ufw.Props.C07.header_two_bit_rejected
 #print axioms Ufw.Props.C07.payload_two_bit_rejected
 #print axioms Ufw.Props.C07.burst_across_size_and_checksum_accepted
+#print axioms Ufw.Tie.Regp.const_header_sizes
+#print axioms Ufw.Tie.Regp.const_options
+#print axioms Ufw.Tie.Regp.const_frame_types
+#print axioms Ufw.Tie.Regp.const_response_codes
+#print axioms Ufw.Tie.Regp.const_value_codes
